@@ -18,15 +18,34 @@ EXPL = ("W19.1 all 3x3 + 20x20 conversion ratios and their inverses, W19.2 all 2
 CORE = "metrique_writer_core"
 
 
+def conv_params(b):
+    """(X, Y) when body b maps an iterator through `<X as Convert<Y>>::convert`"""
+    for c_ in b.calls():
+        if c_.name == "map" and len(c_.args) > 1:
+            f_ = (op_const(c_.args[1]) or {}).get("fn", {})
+            if f_.get("def", "").endswith("Convert::convert") and len(f_.get("args", [])) >= 2:
+                return f_["args"][0], f_["args"][1]
+    return None
+
+
+def converting_writer_types(F):
+    """self types of the ValueWriter impls whose `metric` converts units (the writer WithUnit wraps around the caller's writer)"""
+    return {(b.impl or {}).get("self_ty") for b in F.all_bodies(CORE) if b.name == "metric" and b.impl and
+            (b.impl.get("trait") or "").endswith("ValueWriter") and conv_params(b)}
+
+
 def run(ctx):
     F = ctx.facts("dbg")
     res = witness.run_witness()
     witness.report_group(ctx, "W19.1", res, "units", "unit ratio / inverse / name obligations")
     witness.report_cf(ctx, "W19.3", res, "C19")
     # ------------------------------------------------------------------ R19.4
-    ws = [b for b in F.all_bodies(CORE) if b.name == "metric" and "unit::WithUnit" in b.path and b.impl and (b.impl.get("trait") or "").endswith("ValueWriter")]
+    # the converting writer, by what it does: the ValueWriter::metric body that maps its distribution through `<X as Convert<Y>>::convert`
+    # (where the type is declared, what it and its generic parameters are called, is private detail)
+    ws = [b for b in F.all_bodies(CORE) if b.name == "metric" and b.impl and (b.impl.get("trait") or "").endswith("ValueWriter") and conv_params(b)]
     ctx.floor("R19.4", "unit-converting writer", len(ws), 1)
     for b in ws:
+        FROM, TO = conv_params(b)
         pr = Prov(b)
         key = fnkey(b)
         fw = [c for c in b.calls() if c.is_trait_method("ValueWriter", "metric")]
@@ -55,7 +74,7 @@ def run(ctx):
                             from_unit = True
                 # the promoted holds `From::UNIT`: check its body mentions generic From
                 proms = b.d.get("promoted") or []
-                mentions = any("UnitTag::UNIT" in str(p) and "'From'" in str(p) for p in proms)
+                mentions = any("UnitTag::UNIT" in str(p) and ("'%s'" % FROM) in str(p) for p in proms)
                 site_on_true = t["otherwise"] in yes
                 good = unit_p and mentions and ((nm == "ne" and not site_on_true) or (nm == "eq" and site_on_true))
                 okc = okc or good
@@ -65,7 +84,7 @@ def run(ctx):
         ctx.check(okc, "R19.4", key + "#forwards-only-when-unit-matches", loc(b, c.bb), "the conversion is applied without checking that the value wrote the unit it promised (wrongly scaled numbers)")
         # unit argument = To::UNIT
         k = op_const(c.args[2]) or {}
-        ctx.check(k.get("uneval", "").endswith("UnitTag::UNIT") and k.get("uneval_args") == ["To"], "R19.4", key + "#emits-target-unit", loc(b, c.bb), "the forwarded unit is not To::UNIT (%s)" % (k.get("uneval"), ))
+        ctx.check(k.get("uneval", "").endswith("UnitTag::UNIT") and k.get("uneval_args") == [TO], "R19.4", key + "#emits-target-unit", loc(b, c.bb), "the forwarded unit is not To::UNIT (%s)" % (k.get("uneval"), ))
         # distribution mapped through Convert::convert
         do = pr.operand(c.args[1])
         maps = [x for x in do if x[0] == "call" and b.term(x[1])["callee"]["name"] == "map"]
@@ -74,12 +93,14 @@ def run(ctx):
             mt = b.term(x[1])
             fnarg = op_const(mt["args"][1]) if len(mt["args"]) > 1 else None
             f = (fnarg or {}).get("fn", {})
-            okm = okm or (f.get("def", "").endswith("Convert::convert") and f.get("args", [])[:2] == ["From", "To"] and any(y[0] == "arg" and y[1] == 2 for y in pr.operand(mt["args"][0])))
+            okm = okm or (f.get("def", "").endswith("Convert::convert") and f.get("args", [])[:2] == [FROM, TO] and FROM != TO and any(y[0] == "arg" and y[1] == 2 for y in pr.operand(mt["args"][0])))
         ctx.check(okm, "R19.4", key + "#observations-converted", loc(b, c.bb), "the distribution is not mapped through <From as Convert<To>>::convert")
         for j, nm in ((4, "dimensions"), (5, "flags")):
             o = pr.operand(c.args[j - 1])
             ctx.check(any(x[0] == "arg" and x[1] == j for x in o) and not any(x[0] == "call" for x in o), "R19.4", key + "#%s-identity" % nm, loc(b, c.bb), "%s are not passed through unchanged" % nm)
-    ss = [b for b in F.all_bodies(CORE) if b.name == "string" and "unit::WithUnit" in b.path and b.impl and (b.impl.get("trait") or "").endswith("ValueWriter")]
+    conv_self = {(b.impl or {}).get("self_ty") for b in ws}
+    ss = [b for b in F.all_bodies(CORE) if b.name == "string" and b.impl and (b.impl.get("trait") or "").endswith("ValueWriter") and b.impl.get("self_ty") in conv_self]
+    ctx.floor("R19.4", "string method of the unit-converting writer", len(ss), 1)
     for b in ss:
         inv = [c for c in b.calls() if c.is_trait_method("ValueWriter", "invalid")]
         st = [c for c in b.calls() if c.is_trait_method("ValueWriter", "string")]
@@ -112,13 +133,28 @@ def run(ctx):
                             true_t = t["otherwise"]
                             okid = all(j in b.reachable(true_t) and j not in b.reachable(tg.get(0)) for j in ident) and bool(ident)
         ctx.check(okid, "R19.5", key + "#identity-only-when-ratio-1", loc(b), "the observation is returned unconverted on a path that is not guarded by RATIO == 1.0")
+        # the arms may live in a private helper that is handed (observation, RATIO): `scale_observation(observation, Self::RATIO)`
+        is_ratio = lambda x: x[0] == "const" and isinstance(x[1], tuple) and x[1][0] == "uneval" and x[1][1].endswith("Convert::RATIO")
+        conv = b
+        if len(muls) < 3:
+            for c in b.calls():
+                if c.dest.get("p") or not any(x[0] in ("call", "via") and x[1] == c.bb for x in pr.local(0)) and c.dest["l"] != 0:
+                    continue
+                rp = [ai for ai, a in enumerate(c.args) if any(is_ratio(x) for x in pr.operand(a))]
+                obs = [ai for ai, a in enumerate(c.args) if any(x[0] == "arg" and x[1] == 1 for x in pr.operand(a))]
+                for hb in local_callee_bodies(F, c):
+                    if hb.crate == CORE and rp and obs:
+                        hm = [(i, s) for i in hb.live_blocks() for s in hb.stmts(i) if s["k"] == "assign" and s["lhs"]["l"] == 0 and not s["lhs"].get("p") and s["rv"]["k"] == "agg"]
+                        if len(hm) >= 3:
+                            b, muls, pr = hb, hm, Prov(hb)
+                            is_ratio = lambda x, p_=rp[0] + 1: x[0] == "arg" and x[1] == p_ and not x[2]
         ctx.check(len(muls) >= 3, "R19.5", key + "#three-arms", loc(b), "expected Unsigned / Floating / Repeated arms, found %d" % len(muls))
         for i, s in muls:
             flds = dict(zip(s["rv"].get("fields") or [], s["rv"]["ops"]))
             var = s["rv"].get("variant")
             valf = "total" if var == "Repeated" else (s["rv"].get("fields") or ["0"])[0]
             o = pr.operand(flds[valf])
-            scaled = ("op", "Mul") in o and any(x[0] == "const" and isinstance(x[1], tuple) and x[1][0] == "uneval" and x[1][1].endswith("Convert::RATIO") for x in o)
+            scaled = ("op", "Mul") in o and any(is_ratio(x) for x in o)
             ctx.check(scaled, "R19.5", key + "#%s-scaled-by-ratio" % var, loc(b, i), "the %s arm does not multiply the value by Self::RATIO (origins %s)" % (var, sorted(map(str, o))[:4]))
             # ... and the product is what is emitted: nothing (a narrowing cast, a rounding call, further arithmetic) sits between
             # the multiplication and the observation
@@ -225,6 +261,8 @@ def run(ctx):
             if not (b.name == "write" and b.impl and (b.impl.get("trait") or "").endswith("::Value")) or "::tests::" in b.path or "::test_util" in b.path:
                 continue
             own = [(i_, s_["lhs"]["l"]) for i_ in b.live_blocks() for s_ in b.stmts(i_) if s_["k"] == "assign" and s_["rv"]["k"] == "agg" and s_["rv"].get("adt") in vw_adts]
+            # ... or obtains one from a private constructor (`ConvertingWriter::new(writer)`)
+            own += [(c_.bb, c_.dest["l"]) for c_ in b.calls() if not c_.dest.get("p") and (b.locals[c_.dest["l"]].get("head") or {}).get("adt") in vw_adts and local_callee_bodies(F, c_)]
             if not own or not ("unit::" in b.path or "distribution" in b.path or "MetricValue" in str(b.d.get("preds", ""))):
                 continue
             pr = Prov(b)
